@@ -29,7 +29,7 @@ def run_seed(sid):
 sids=sorted(x for x in os.listdir(seeded) if os.path.isdir(os.path.join(seeded,x)))
 if len(sys.argv)>1: sids=[s for s in sids if s in sys.argv[1:]]
 out={}
-with concurrent.futures.ThreadPoolExecutor(max_workers=8) as ex:
+with concurrent.futures.ThreadPoolExecutor(max_workers=12) as ex:
     for sid,res in ex.map(run_seed,sids):
         out[sid]=res
         own=sid.split('-')[0]
